@@ -6,6 +6,7 @@ CONSTANTS
   MinLen = 1
   MaxPairs = 3
   KeepHist = FALSE
+  EmitFrom = 0
 INVARIANTS
   Disjoint
   HullIsUnion
